@@ -881,6 +881,9 @@ def seq_slice(s: SV, lo, hi) -> SV:
     def norm(x, default):
         if x is None:
             return default
+        if isinstance(x, tuple) and x[0] == "from_end":
+            v = n - x[1].t
+            return z3.If(v < 0, z3.IntVal(0), v)
         if isinstance(x, int) and not isinstance(x, bool):
             if x < 0:
                 v = n + x
